@@ -474,7 +474,7 @@ def run(chk):
     chk.matchers["input-atom-gains-position"] = m_atom_gained_position
     chk.prove("Props/C36.v", ["Props/C36.vo", "MacroNS/ExpandEncode.vo"], [macro_lookup.translate, macro_expand.translate])
     thorough = chk.tier == "thorough"
-    n_inputs = 20000 if thorough else 2000
+    n_inputs = 12000 if thorough else 2000
     per_world = 25
     chk.rule = ("world = module with up to 6 template macros (arity 0-2; quasiquote templates producing calls of later "
                 "macros, core forms `if`/`quote`, dotted heads, non-macro heads, lists, atoms; some raising), "
